@@ -39,6 +39,8 @@ enum PEv {
     GateAwait(usize),
     GateDone(usize),
     Returned(u32),
+    /// yield_all pulled this item out of the caller's (lazy) iterator
+    Produced(u32),
     // consumer side
     Taken(u32),
     Complete(u32),
@@ -101,7 +103,7 @@ fn gen_program(rng: &mut Rng) -> (Vec<Op>, usize) {
                 Op::Yield(next_id - 1)
             }
             4 | 5 => {
-                let k = rng.usize(4);
+                let k = if rng.chance(1, 4) { 4 + rng.usize(6) } else { rng.usize(4) };
                 let ids: Vec<u32> = (0..k as u32).map(|j| next_id + j).collect();
                 next_id += k as u32;
                 Op::YieldAll(ids)
@@ -162,7 +164,13 @@ fn run_program(ops: &[Op], n_gates: usize, mode: u64, variant: u64, rng: &mut Rn
                 Op::YieldAll(ids) => {
                     if let Some(c) = co.as_mut() {
                         l2.borrow_mut().push(PEv::EmitAll(ids.clone()));
-                        c.yield_all(ids.clone()).await;
+                        // a lazy iterator with a visible side effect per item
+                        let l3 = l2.clone();
+                        let lazy = ids.clone().into_iter().map(move |id| {
+                            l3.borrow_mut().push(PEv::Produced(id));
+                            id
+                        });
+                        c.yield_all(lazy).await;
                         l2.borrow_mut().push(PEv::ResumedAll(ids));
                     }
                 }
@@ -335,6 +343,25 @@ fn run_program(ops: &[Op], n_gates: usize, mode: u64, variant: u64, rng: &mut Rn
             PEv::Resumed(id) => {
                 if !l[..i].iter().any(|x| *x == PEv::Taken(*id)) {
                     viol.push(("c13a-producer-not-ahead".into(), format!("producer resumed after yielding {} before the consumer took it", id)));
+                }
+            }
+            PEv::EmitAll(ids) => {
+                // the batch is pulled from the caller's iterator lazily: never more than two items ahead of what
+                // the consumer has taken (one in the channel slot, one held by the forwarding loop)
+                let end = l[i + 1..].iter().position(|x| matches!(x, PEv::ResumedAll(_))).map(|j| i + 1 + j).unwrap_or(l.len());
+                let (mut produced, mut taken_n) = (0usize, 0usize);
+                for x in &l[i + 1..end] {
+                    match x {
+                        PEv::Produced(id) if ids.contains(id) => {
+                            produced += 1;
+                            if produced > taken_n + 2 {
+                                viol.push(("c13a-producer-not-ahead".into(), format!("yield_all pulled item {} (#{} of its batch) out of the iterator while the consumer had taken only {}", id, produced, taken_n)));
+                                break;
+                            }
+                        }
+                        PEv::Taken(id) if ids.contains(id) => taken_n += 1,
+                        _ => {}
+                    }
                 }
             }
             PEv::ResumedAll(ids) => {
